@@ -10,7 +10,7 @@ from . import common as C
 
 TECHNIQUE = "static analysis: affine slice check (forward only), CFG ordering use-before-kill with loop exit, parameter-threading over the resolved call path, role/part table extraction compared with spec/roles.json, truth-table of the (source,destination)->role classifiers, slice partition of the default roles, writer/reader key agreement of the edge attribute, ISA data lint"
 EXPLANATION = (
-    "R1: the candidate list handed to find_depending is kernel[i+1:] for the enumerate index i (edges point forward, also in the doubled kernel). R2: in the scan loop, for register and flag destinations the read test/yield precedes the overwrite test, whose true path leaves the loop. R3: every yield/break of the flag branch is dominated by the flag_dependencies parameter and that parameter is passed on unchanged at every call site along inspect -> KernelDG -> create_DG / check_for_loopcarried_dep -> find_depending. R4: roles and operand parts consulted by is_read / is_written equal spec/roles.json. R5: (source, destination) -> role is (T,T)->src_dst, (T,F)->source, (F,T)->destination in the explicit operand loop and both hidden-operand classifiers (4-row truth tables of the extracted conditions). R6: default roles partition the operand list (x86: last is destination; AArch64: first; single operand: source only). R7: the edge attribute written by add_edge is the one every consumer reads; ordinary weight from latency_wo_load (fallback latency), write-back weight from the model's p_index_latency; edges run producer -> consumer. R8: the dependency-breaking branch puts all operands and hidden operands into destination only, under the DB flag and all-operands-equal. D1: ISA data roles are boolean, immediates/identifiers/conditions never destinations, hidden operands are flag/register/memory and never memory on AArch64. R9: the ISA-entry look-up that decides the roles is followed on its miss path by both suffix fall-backs with the same operand list in every slot (shared with C07-R4)."
+    "R1: the candidate list handed to find_depending is kernel[i+1:] for the enumerate index i (edges point forward, also in the doubled kernel). R2: in the scan loop, for register and flag destinations the read test/yield precedes the overwrite test, whose true path leaves the loop. R3: every yield/break of the flag branch is dominated by the flag_dependencies parameter and that parameter is passed on unchanged at every call site along inspect -> KernelDG -> create_DG / check_for_loopcarried_dep -> find_depending. R4: roles and operand parts consulted by is_read / is_written equal spec/roles.json. R5: (source, destination) -> role is (T,T)->src_dst, (T,F)->source, (F,T)->destination in the explicit operand loop and both hidden-operand classifiers (4-row truth tables of the extracted conditions). R6: default roles partition the operand list (x86: last is destination; AArch64: first; single operand: source only). R7: the edge attribute written by add_edge is the one every consumer reads; ordinary weight from latency_wo_load (fallback latency), write-back weight from the model's p_index_latency; edges run producer -> consumer. R8: the dependency-breaking branch puts all operands and hidden operands into destination only, under the DB flag and all-operands-equal. D1: ISA data roles are boolean, immediates/identifiers/conditions never destinations, hidden operands are flag/register/memory and never memory on AArch64. R9: the ISA-entry look-up that decides the roles is followed on its miss path by both suffix fall-backs with the same operand list in every slot (shared with C07-R4). R10: the parsers' alias predicates (is_reg_dependend_of of both ISAs) that is_read / is_written consult satisfy the obligations of C12 (architectural alias partition, every `return True` under a same-family condition whose families exist): otherwise registers without a family - condition flags, rip, segment registers - alias each other and spurious edges appear under --consider-flag-deps."
 )
 NOT_DECIDED = "Equality with an independently computed RAW relation on generated programs (behavioural)."
 ASSUMPTIONS = [
@@ -743,3 +743,11 @@ def run(ctx):
     # R9: the ISA-entry look-up that decides the operand roles tries the documented fall-backs (shared with C07-R4)
     from . import c07
     c07._r4(ctx, rule="R9", funcs=("ISASemantics.assign_src_dst", "ISASemantics.get_reg_changes"), floor=3)
+    # R10: is_read / is_written decide "same register" through the parsers' alias predicates: a predicate that relates
+    # strangers (flags, rip, segment registers have no family) adds edges that are no read-after-write (shared with C12)
+    from . import c12
+    ctx.rule("R10", "the alias predicates behind is_read / is_written relate only architectural aliases (C12-R1..R4)")
+    C.embed(ctx, "C12", lambda sub: c12._x86_returns(sub, *c12._x86(sub)), "R10", "x86 alias predicate (C12)",
+            "is_read / is_written treat two different registers as the same one", ctx.func("ParserX86ATT.is_reg_dependend_of").where())
+    C.embed(ctx, "C12", c12._aarch64, "R10", "AArch64 alias predicate (C12)",
+            "is_read / is_written treat two different registers as the same one", ctx.func("ParserAArch64.is_reg_dependend_of").where())
